@@ -23,6 +23,7 @@ THEOREMS = [
     "Nix.C19.C19_accepted_outcome_determined",
     "Nix.C19.C19_only_target",
     "Nix.C19.C19_untargeted_history",
+    "Nix.C19.C19_listed_update_persists",
     "Nix.C19.C19_refused_unchanged",
     "Nix.C19.C19_listed_refused_unchanged",
     "Nix.C19.C19_getters_read_store",
@@ -1215,6 +1216,19 @@ def correspondence(ctx):
     dist["str_to_time.noncanonical_shape_skipped"] = skipped
     samples.append({"case": tcases[0], "model": tmodel[0]})
 
+    # ---- 1b. method resolution: the generated member table + MRO against the classes Python built ---------------
+    rcases, rimpl = resolution_cases()
+    rmodel = core.run_driver(PROP, rcases)
+    for c, m, i in zip(rcases, rmodel, rimpl):
+        evaluations += 1
+        mm = m.get("ok") if isinstance(m, dict) else m
+        got = None if mm is None else {"cls": mm.get("cls"), "kind": mm.get("kind")}
+        if got != i:
+            disagreements.append(Disagreement(c, got, i))
+        if i is not None:
+            nontrivial.add(core.canon(c))
+    dist["resolve"] = len(rcases)
+
     # ---- 2. histories ------------------------------------------------------------------------
     histories = []
     for h in core.load_corpus(PROP):
@@ -1282,6 +1296,57 @@ def correspondence(ctx):
                     "set of entity ids in the file compared after every operation. non-trivial = distinct "
                     "(operation, outcome, population size)",
             "samples": samples, "distribution": dist, "disagreements": disagreements, "exhaustive": False}
+
+
+def resolution_cases():
+    """for every class of the nixio modules the translator reads and every setter / method name of the table's
+    interest (all property setters, the force methods, the append_* methods): the class whose definition Python's
+    attribute lookup reaches and what kind of member it is, from the live class objects"""
+    import importlib
+    import pkgutil
+    import nixio
+    classes = {}
+    for mi in pkgutil.iter_modules(nixio.__path__):
+        if mi.ispkg or mi.name in ("info", "validator"):
+            continue
+        try:
+            mod = importlib.import_module("nixio." + mi.name)
+        except Exception:
+            continue
+        for name, obj in vars(mod).items():
+            if inspect.isclass(obj) and obj.__module__ == mod.__name__:
+                import enum
+                if not issubclass(obj, enum.Enum) and not issubclass(obj, BaseException):
+                    classes[name] = obj
+    names = set(["force_created_at", "force_updated_at"])
+    for c in classes.values():
+        for n, obj in vars(c).items():
+            if isinstance(obj, property) and obj.fset is not None:
+                names.add(n)
+            elif n.startswith("append_") and callable(obj):
+                names.add(n)
+    cases, impl = [], []
+    for cn, c in sorted(classes.items()):
+        for n in sorted(names):
+            found = None
+            for k in c.__mro__:
+                if n in vars(k):
+                    obj = vars(k)[n]
+                    if isinstance(obj, property):
+                        if obj.fset is None:
+                            found = None         # a read-only property: no setter in the table ...
+                            # ... unless a base class defines a setter of that name, which Python does not reach
+                        else:
+                            found = {"cls": k.__name__, "kind": "setter"}
+                    elif callable(obj) or isinstance(obj, (classmethod, staticmethod)):
+                        found = {"cls": k.__name__, "kind": {"force_created_at": "forceCreated",
+                                                             "force_updated_at": "forceUpdated"}.get(n, "method")}
+                    break
+            if found is not None and found["cls"] not in classes:
+                found = None
+            cases.append(["resolve", cn, n])
+            impl.append(found)
+    return cases, impl
 
 
 def setter_coverage():
